@@ -16,12 +16,12 @@ from rv import detmodel as D
 from rv import common as C
 from rv import contracts
 
-N_CASES = {'quick': 360, 'thorough': 7000}
+N_CASES = {'quick': 720, 'thorough': 7000}
 TIMEOUT = {'quick': 1500, 'thorough': 6 * 3600}
 ANCHORS = ['ro:Model.st', 'ro:Model.minmax', 'ro:Model.maxmin', 'dro:Model.minsup',
            'dro:Model.maxinf', 'lp:Vars.__le__', 'lp:Vars.__ge__', 'lp:VarSub.__le__',
            'lp:VarSub.__ge__', 'subroutines:flat', 'lp:RoConstr.forall', 'lp:DecRoConstr.forall']
-FLOORS = {'judged': {'quick': 220, 'thorough': 4500}, 'nontrivial': 60,
+FLOORS = {'judged': {'quick': 440, 'thorough': 4500}, 'nontrivial': 60,
           'counters': {'rewrites_compared': 800}}
 RULE = ('base models from the C01 (ro) and C06 (deterministic) generators, each with 4 (quick) / 6 '
         '(thorough) rewrites drawn from the rewrite group, all solved with the same interface. '
